@@ -173,14 +173,37 @@ func main() {
 	w := proch.NewWorld()
 	var e0 vaa.Address
 	e0[31] = 0x51
+	type nodeUse struct {
+		name  string
+		sets  [][]int
+		own   int
+		obs   []int
+		depth int
+	}
+	var uses []nodeUse
 	for n := 1; n <= 4; n++ {
 		for _, own := range []int{0, 1, n - 1} {
 			if own >= n || (own == 1 && n <= 2) {
 				continue
 			}
-			n, own := n, own
-			sets := [][]int{keys.Range(0, n), keys.Range(1, n+1)}
-			c := proch.Config{Name: fmt.Sprintf("node-use-n%d-own%d", n, own), Sets: sets, OwnKey: own,
+			d := 7
+			if n >= 4 {
+				d = 6
+			}
+			uses = append(uses, nodeUse{fmt.Sprintf("node-use-n%d-own%d", n, own), [][]int{keys.Range(0, n), keys.Range(1, n+1)}, own, keys.Range(0, n+1), d})
+		}
+	}
+	// sets of DIFFERENT sizes (the threshold that counts is the one of the set the VAA names, not of whatever set
+	// is current when the last signature arrives): shrinking and growing rotations
+	for _, p := range [][2]int{{4, 1}, {4, 2}, {2, 4}, {1, 3}, {3, 2}} {
+		uses = append(uses, nodeUse{fmt.Sprintf("node-use-%d-to-%d", p[0], p[1]), [][]int{keys.Range(0, p[0]), keys.Range(0, p[1])}, 0, keys.Range(0, 5), 6})
+	}
+	uses = append(uses, nodeUse{"node-use-7-to-4", [][]int{keys.Range(0, 7), keys.Range(0, 4)}, 0, []int{1, 2, 3, 6}, 6},
+		nodeUse{"node-use-4-to-7", [][]int{keys.Range(0, 4), keys.Range(0, 7)}, 0, []int{1, 2, 3, 6}, 6})
+	{
+		for _, u := range uses {
+			n, own, sets, u := len(u.sets[0]), u.own, u.sets, u
+			c := proch.Config{Name: u.name, Sets: sets, OwnKey: own,
 				Msgs: []proch.Msg{{Seq: 3, Payload: []byte{7}, Emitter: e0, Chain: 2, Target: 255, CL: 1}}}
 			x := &proch.Explorer{R: r, W: w, C: &c, Oracles: map[string]bool{}}
 			judge := func(kind string, b []byte, hist []proch.Event) {
@@ -231,15 +254,12 @@ func main() {
 				for i := range nd.Pending {
 					evs = append(evs, proch.Event{Kind: "lb", LB: i})
 				}
-				for g := 0; g <= n; g++ {
+				for _, g := range u.obs {
 					evs = append(evs, proch.Event{Kind: "obs", G: g, D: 0})
 				}
 				return evs
 			}
-			depth := 7
-			if n >= 4 {
-				depth = 6
-			}
+			depth := u.depth
 			x.BFS(depth, menu, 400000, nil)
 			r.Add("states", x.States)
 			r.Add("transitions", x.Transitions)
